@@ -11,8 +11,9 @@ from terms import TermBuilder, show, walk
 import cfg
 from dataflow import Deps, operand_locals, rvalue_locals, place_locals
 from callgraph import CallGraph, load_effects, classify
-from .common import live_calls, printed_texts, ws_bodies, guards_of, is_iter_next
+from .common import live_calls, printed_texts, ws_bodies, guards_of, is_iter_next, closure_upvar_terms, is_upvar
 from .uci_common import ExecShape, EXEC, type_mentions
+from .c01 import is_call
 
 LEVEL = "other"
 SPAWN = "weechess_engine::uci::Search::spawn"
@@ -46,7 +47,8 @@ def run(ck):
         "only from State::default(), the Ok of the FEN reader, or the Ok of by_performing_moves(current_position, moves-of-this-command); each "
         "successful `position` command re-establishes the base and applies all its move tokens in order; `go` searches a clone of it and looks the book "
         "up with it. I10: the deepening loop cannot be left before the iteration's workers ran (so a stop that is already pending cannot suppress the "
-        "first report).")
+        "first report), and the loop starts at depth 0 so that it runs at least once for every depth limit >= 1. I11: every search gets a timer thread - started on every "
+        "path through Search::spawn - that sends Stop when the elapsed time reaches `movetime.unwrap_or(default)`, whatever other limit was given.")
     ck.trusted = ["rustc front end and MIR construction (drop elaboration)", "extractor decoding", "effect table tables/effects.json (blocking callees)"]
     ck.not_decided = [
         "timing: when a reply appears, `readyok` latency while a search runs",
@@ -64,6 +66,7 @@ def run(ck):
     ck.run_rule(i8_exit)
     ck.run_rule(i9_position)
     ck.run_rule(i10_first_iteration)
+    ck.run_rule(i11_time_limit)
     from .c12 import q7_uci_query
     ck.run_rule(q7_uci_query)   # I9: the move tokens are converted to (origin, destination, promotion) queries
     # the book branch and the reused search memory answer by position hash: a hash that confuses positions with different legal moves
@@ -1129,5 +1132,63 @@ def i10_first_iteration(ck):
                     "the deepening loop can be left before the iteration's search has run (conditions: %s): a search whose stop is already pending "
                     "reports no line, so the `go` gets no bestmove" % [show(c)[:50] for c, v in g][-2:])
     ck.floor("I10", n, 2, "exits of the iterative-deepening loop")
+    # the loop runs over depths 0..max: it must start at the constant 0, otherwise a request with a small depth limit can run zero
+    # iterations (e.g. a warm start above the requested depth) and nothing is reported
+    from terms import const_value as _cv
+    rng_ok = False
+    for blk in b.blocks:
+        for s_ in blk["stmts"]:
+            if s_["k"] == "assign" and "agg" in s_["rv"] and str(s_["rv"]["agg"].get("adt", "")).endswith("ops::range::Range"):
+                r = [tb.operand(o) for o in s_["rv"]["ops"]]
+                # the range consumed by the deepening loop's next()
+                if len(r) == 2 and any(x[0] == "call" and "unwrap_or" in x[1] for x in walk(r[1])):
+                    rng_ok = rng_ok or _cv(r[0]) == 0
+                    if _cv(r[0]) != 0:
+                        ck.fail("I10.first_depth", "analyze_iterative", b.where(s_.get("line")),
+                                "the deepening loop starts at %s, not at 0: with a depth limit at or below that start no iteration runs and the search ends without a report" % show(r[0])[:80])
+    ck.req(rng_ok, "I10.first_depth", "range", b.where(), "cannot find the deepening range `0..max_depth`")
     # every BestMove report in analyze_iterative carries a line that is checked non-empty or produced by the iteration (C03 decides its legality)
     ck.sample({"rule": "I10", "loop_blocks": len(L), "workers_block": "bb%d" % wb, "exits": n})
+
+
+def i11_time_limit(ck):
+    """`go ... movetime ms` (and the default cap) is enforced by a timer thread of Search::spawn: a closure that sends ControlEvent::Stop on a clone of the
+    control sender once start_time.elapsed() >= limit.  It must be started on every path (not only when no depth limit was given) and its limit must be
+    the search_time parameter with the default as fallback."""
+    prog = ck.prog
+    sp = ck.body(SPAWN, "I11")
+    tb = TermBuilder(prog, sp)
+    timers = []
+    for cn in prog.closures_of(SPAWN):
+        c = prog.body(cn)
+        if c.j.get("direct_parent") != SPAWN:
+            continue
+        ctb = TermBuilder(prog, c)
+        sends = [(bb, t) for bb, t in live_calls(c) if "mpsc::Sender" in callee_name(t) and callee_name(t).endswith("::send") and any("Stop" in show(ctb.operand(a)) for a in t["args"][1:])]
+        if sends and not any(callee_name(t).endswith("::recv") for bb, t in live_calls(c)):
+            timers.append((cn, c, ctb, sends))
+    ck.req(len(timers) == 1, "I11.timer", "Search::spawn", sp.where(), "expected one timer closure (sends Stop, receives nothing) in Search::spawn, found %d" % len(timers))
+    if len(timers) != 1:
+        return
+    cn, c, ctb, sends = timers[0]
+    # started unconditionally
+    starts = [bb for bb, t in live_calls(sp) if callee_name(t).startswith("std::thread") and callee_name(t).endswith("::spawn")
+              and any(x[0] == "agg" and str(x[1]) == "closure:" + cn for x in walk(tb.operand(t["args"][0])))]
+    ck.req(len(starts) == 1 and cfg.must_pass(sp, [0], cfg.exits(sp), starts), "I11.always_started", "Search::spawn", sp.where(),
+           "the timer thread is not started on every path through Search::spawn: a search with that combination of limits is not stopped when its time is up")
+    # its limit is search_time.unwrap_or(DEFAULT) and it compares elapsed time with it
+    ups = closure_upvar_terms(prog, sp, cn, tb) or []
+    names = {sp.local_name(i): i for i in range(1, sp.arg_count + 1)}
+    st = names.get("search_time")
+    lim = [i for i, u in enumerate(ups) if is_call(u, "Option::<T>::unwrap_or") and u[2][0] == ("param", st) and u[2][1][0] == "const"]
+    ck.req(bool(lim), "I11.limit", "timer", c.where(), "the timer's limit is not `search_time.unwrap_or(<default>)` (captures: %s)" % [show(u)[:50] for u in ups])
+    sends_guarded = False
+    for bb, t in sends:
+        for cnd, tk in guards_of(prog, c, bb, ctb):
+            if cnd[0] == "bin" and cnd[1] in ("Ge", "Gt") and tk is True and any(x[0] == "call" and x[1].endswith("Instant::elapsed") for x in walk(cnd[2])) \
+                    and any(is_upvar(x, i) for i in lim for x in walk(cnd[3])):
+                sends_guarded = True
+    ck.req(sends_guarded, "I11.deadline", "timer", c.where(), "Stop is not sent when `start_time.elapsed() >= limit`")
+    # the timer polls: its loop sleeps a bounded constant time
+    sl = [t for bb, t in live_calls(c) if callee_name(t).endswith("thread::functions::sleep") or callee_name(t).endswith("thread::sleep")]
+    ck.req(bool(sl) and all(cfg.in_cycle(c, bb) for bb, t in live_calls(c) if t in sl), "I11.polls", "timer", c.where(), "the timer does not poll in a loop")
